@@ -812,6 +812,58 @@ def translate(unix_src, ipc_src):
             return ("Definition %s_closed : Z := %d.\nDefinition %s_errno (code : Z) : Z := %s." % (defname, closed, defname, term))
         attempt(defname, go)
 
+    # close-on-exec at the places where the back end creates descriptors: the Linux definitions of SOCK_FLAGS (socketpair / socket /
+    # accept4) and RECVMSG_FLAGS (descriptors arriving with a message), the duplication of region descriptors, memfd_create
+    def cloexec_flags():
+        vals = [t[1] for t in toks]
+
+        def linux_const(name, flag):
+            hits = []
+            for i in range(len(vals) - 3):
+                if vals[i] == "const" and vals[i + 1] == name and vals[i + 2] == ":":
+                    j = vals.index("=", i)
+                    k = vals.index(";", j)
+                    # the cfg attribute in front of it
+                    a = i
+                    while a > 0 and vals[a - 1] != "]":
+                        a -= 1
+                    b = a - 1
+                    depth = 0
+                    while b >= 0:
+                        if vals[b] == "]":
+                            depth += 1
+                        elif vals[b] == "[":
+                            depth -= 1
+                            if depth == 0:
+                                break
+                        b -= 1
+                    attr = vals[b:a] if b >= 0 and b > 0 and vals[b - 1] == "#" else []
+                    linux = any("linux" in v for v in attr) and "not" not in attr
+                    hits.append((linux or not attr, vals[j + 1:k]))
+            lin = [e for ok, e in hits if ok]
+            if len(lin) != 1:
+                raise Untranslatable("%s: %d Linux definitions" % (name, len(lin)))
+            return "true" if flag in lin[0] else "false"
+        sock = linux_const("SOCK_FLAGS", "SOCK_CLOEXEC")
+        rmsg = linux_const("RECVMSG_FLAGS", "MSG_CMSG_CLOEXEC")
+        dups = [i for i in range(len(vals)) if vals[i] in ("F_DUPFD", "F_DUPFD_CLOEXEC") or (vals[i] == "dup" and i + 1 < len(vals) and vals[i + 1] == "(" and vals[i - 1] == "::")]
+        dup_ok = bool(dups) and all(vals[i] == "F_DUPFD_CLOEXEC" for i in dups)
+        memfd = [i for i in range(len(vals) - 1) if vals[i] == "memfd_create" and vals[i + 1] == "(" and vals[i - 1] != "fn"]
+        mem_ok = True
+        for i in memfd:
+            k = i + 1
+            depth = 0
+            while True:
+                depth += vals[k] == "(" and 1 or 0
+                depth -= vals[k] == ")" and 1 or 0
+                if depth == 0:
+                    break
+                k += 1
+            mem_ok = mem_ok and "MFD_CLOEXEC" in vals[i:k]
+        return ("Definition SOCK_FLAGS_CLOEXEC : bool := %s.\nDefinition RECVMSG_FLAGS_CLOEXEC : bool := %s.\n"
+                "Definition DUP_CLOEXEC : bool := %s.\nDefinition MEMFD_CLOEXEC : bool := %s."
+                % (sock, rmsg, "true" if dup_ok else "false", "true" if mem_ok else "false"))
+    attempt("cloexec_flags", cloexec_flags)
     out.append(("ERRNO", "Definition EAGAIN : Z := 11.\nDefinition EINTR : Z := 4."))
     errmap("try_recv_class", "TryRecvError")
     errmap("recv_class", "IpcError")
@@ -889,7 +941,10 @@ def main():
     for name, text in out:
         if text is None:
             key = name[7:] if name.startswith("sizeof_") else name
-            pat = re.compile(r"^Definition (?:SIZEOF_)?%s(?:_safe|_closed|_errno)?\b.*?\.$" % re.escape(key), re.M | re.S)
+            if key == "cloexec_flags":
+                pat = re.compile(r"^Definition (?:SOCK_FLAGS_CLOEXEC|RECVMSG_FLAGS_CLOEXEC|DUP_CLOEXEC|MEMFD_CLOEXEC)\b.*?\.$", re.M | re.S)
+            else:
+                pat = re.compile(r"^Definition (?:SIZEOF_)?%s(?:_safe|_closed|_errno)?\b.*?\.$" % re.escape(key), re.M | re.S)
             ms = pat.findall(pin)
             text = "(* pinned fallback: %s *)\n" % summary["fallback"][name].replace("*)", "* )") + "\n".join(ms)
         parts.append(text)
